@@ -276,36 +276,71 @@ def check_wrapper(ctx, u, rec):
             post = bool(params_of(m))
             good = False
             why = 'unrecognised body'
-            if not post and len(stmts) == 2:
-                a = strip(stmts[0])
-                if stored_expr(a) is not None:
-                    e = strip(stored_expr(a) or {})
-                    if e and e.get('kind') == 'BinaryOperator' and e.get('opcode') == op and is_load(e['inner'][0]) and int_value(e['inner'][1]) == 1:
-                        r = kids(stmts[1])[0] if stmts[1].get('kind') == 'ReturnStmt' and kids(stmts[1]) else None
-                        if r is not None and is_load(r):
-                            good = True
-                        else:
-                            why = 'prefix %s returns `%s`, not the loaded (exposed-domain) value: for a byte-swapped wrapper the raw representation is returned' % (nm, canon(r) if r is not None else '?')
-                    else:
-                        why = 'stored value is not Store(Load(value) %s 1)' % op
-            elif post and len(stmts) == 3:
-                d = stmts[0]
-                vd = kids(d)[0] if d.get('kind') == 'DeclStmt' and kids(d) else None
-                if vd is not None and kids(vd) and is_load(kids(vd)[-1]):
-                    a = strip(stmts[1])
-                    if stored_expr(a) is not None:
-                        e = strip(stored_expr(a) or {})
-                        okv = e and e.get('kind') == 'BinaryOperator' and e.get('opcode') == op and int_value(e['inner'][1]) == 1 and \
-                            ((ref_decl(e['inner'][0]) or {}).get('id') == vd['id'] or is_load(e['inner'][0]))
-                        r = kids(stmts[2])[0] if stmts[2].get('kind') == 'ReturnStmt' and kids(stmts[2]) else None
-                        if okv and r is not None and (ref_decl(r) or {}).get('id') == vd['id']:
-                            good = True
-                        elif not okv:
-                            why = 'stored value is not Store(old %s 1)' % op
-                        else:
-                            why = 'postfix %s does not return the saved old value' % nm
+            # symbolic execution of the (straight-line) body: terms over the initial exposed value X0
+            #   raw value R0 = S(X0);  Load(R) = L(R) with L(S(x)) = x;  x +- 1
+            bad_stmt = None
+            cur = ('S', 'X0')
+            envs = {}
+            ret = None
+
+            def simp(t):
+                if isinstance(t, tuple) and t[0] == 'L' and isinstance(t[1], tuple) and t[1][0] == 'S':
+                    return simp(t[1][1])
+                if isinstance(t, tuple):
+                    return tuple(simp(x_) if isinstance(x_, tuple) else x_ for x_ in t)
+                return t
+
+            def term(e):
+                e0 = strip(e)
+                while e0 is not None and e0.get('kind') in ('ImplicitCastExpr', 'ParenExpr', 'CStyleCastExpr', 'CXXStaticCastExpr', 'CXXFunctionalCastExpr') and kids(e0):
+                    if is_load(e0):
+                        break
+                    e0 = strip(kids(e0)[0])
+                if e0 is None:
+                    return ('?',)
+                if is_load(e0):
+                    return simp(('L', cur))
+                so = is_store_of(e0)
+                if so is not None:
+                    return ('S', term(so))
+                if _is_value(e0):
+                    return cur
+                if e0.get('kind') == 'DeclRefExpr' and (ref_decl(e0) or {}).get('id') in envs:
+                    return envs[ref_decl(e0)['id']]
+                if e0.get('kind') == 'BinaryOperator' and e0.get('opcode') in ('+', '-') and int_value(e0['inner'][1]) == 1:
+                    return ('op', e0['opcode'], term(e0['inner'][0]))
+                return ('?', canon(e0))
+            for st_ in stmts:
+                s0 = strip(st_)
+                if s0.get('kind') == 'DeclStmt':
+                    for vd in kids(s0):
+                        if vd.get('kind') == 'VarDecl' and kids(vd):
+                            envs[vd['id']] = term(kids(vd)[-1])
+                elif stored_expr(s0) is not None:
+                    cur = ('S', term(stored_expr(s0)))
+                elif s0.get('kind') == 'BinaryOperator' and s0.get('opcode') == '=' and _is_value(s0['inner'][0]):
+                    cur = term(s0['inner'][1])
+                elif s0.get('kind') == 'ReturnStmt' and kids(s0):
+                    ret = term(kids(s0)[0])
+                    break
                 else:
-                    why = 'postfix %s does not save Load(value) first' % nm
+                    bad_stmt = s0
+                    break
+            want_cur = ('S', ('op', op, 'X0'))
+            want_ret = 'X0' if post else ('op', op, 'X0')
+            if bad_stmt is not None:
+                why = 'unrecognised statement `%s`' % src_text(bad_stmt, 50)
+            elif simp(cur) != want_cur:
+                why = 'the stored value is %s, not Store(Load(value) %s 1)' % (simp(cur), op)
+            elif ret is None or simp(ret) != want_ret:
+                if not post and ret is not None and simp(ret) == ('S', ('op', op, 'X0')):
+                    why = 'prefix %s returns the raw stored representation, not the loaded (exposed-domain) value: for a byte-swapped wrapper the bytes come back swapped' % nm
+                elif post:
+                    why = 'postfix %s returns %s, not the value the object held before' % (nm, simp(ret) if ret is not None else None)
+                else:
+                    why = 'prefix %s returns %s, not the updated value' % (nm, simp(ret) if ret is not None else None)
+            else:
+                good = True
             ctx.check(good, R, mkey + '|shape', m, ('old = Load(value); value = Store(old %s 1); return old' if post else 'value = Store(Load(value) %s 1); return Load(value)') % op, why)
         elif nm in ('load',) or m.get('kind') == 'CXXConversionDecl':
             ok = len(rets) == 1 and kids(rets[0]) and is_load(kids(rets[0])[0])
